@@ -36,7 +36,9 @@ def render(stmt):
         if stmt["sp"] == "alter":
             return ["ALTER TABLE %s DROP COLUMN %s;" % (t, c)]
         keep = ["id"] + [x for x in sorted(stmt["cols"]) if x != "v"]
-        return ["PRAGMA foreign_keys = off;", create_sql(t, stmt["cols"], "new_" + t), "INSERT INTO new_%s (%s) SELECT %s FROM %s;" % (t, ", ".join(keep), ", ".join(keep), t),
+        # the copy statement of a hand-written rebuild, in the spellings SQLite accepts
+        ins = ["INSERT INTO", "insert into", "INSERT OR REPLACE INTO", "REPLACE INTO"][(len(stmt["cols"]) + ord(t[0]) + ord((c or "x")[0])) % 4]
+        return ["PRAGMA foreign_keys = off;", create_sql(t, stmt["cols"], "new_" + t), "%s new_%s (%s) SELECT %s FROM %s;" % (ins, t, ", ".join(keep), ", ".join(keep), t),
                 "DROP TABLE %s;" % t, "ALTER TABLE new_%s RENAME TO %s;" % (t, t), "PRAGMA foreign_keys = on;"]
     raise ValueError(k)
 
